@@ -685,6 +685,32 @@ example : ∃ sf, runLoop (machine failingExt false) none 5 0 (sHalt 1) = .error
     none 5 (sHalt 1) _ _ demo_failed_eval (sHalt1_vmOk _ _) (sHalt_pinv 1) (sHalt_sizeBounded1 _) demo_failed_small
   exact ⟨sf, h1, h2, h3⟩
 
+/-- the hypotheses `PInv s2`, `PInv t2` of `failed_eval_equivalent_later_closed` follow from the law `CompProc` of the
+    compiler inside `prepare_eval` (the heap it returns, fresh entry lambda included, satisfies `HP`): the failed VM
+    after the error epilogue and the collection, and its twin, are idle machines satisfying `PInv`, and
+    `prepare_eval` only points `ip` at the new entry lambda -/
+theorem prepared_pinv_after_failure (ext : ExtOps) (force : Bool) (el : ExtLaws ext) (eg : ExtGood ext)
+    (ecl : ExtCodeLawsV ext) (ep : ExtProc ext)
+    (comp : CHeap → VCell → Outcome (CHeap × VCell)) (cp : CompProc comp)
+    (count : Option Nat) (fuel : Nat) (s : St CHeap) (f : Fault) (s1 : St CHeap)
+    (hfail : runEval (concreteOps ext) (cgc force) count fuel s = .failed f s1)
+    (h0 : VmOk ext ecl s) (p0 : PInv s) (sb : SizeBounded (machine ext force) s) :
+    ∃ sf, runLoop (machine ext force) count fuel 0 s = .error f sf ∧ s1 = cgc force (onError sf) ∧
+      ∀ (d : VCell) (s2 t2 : St CHeap), addrFree d = true →
+        prepareEval comp s1 d = .ok s2 → prepareEval comp (onError sf) d = .ok t2 → PInv s2 ∧ PInv t2 := by
+  obtain ⟨q1, sf, hrun, rfl, _⟩ := failed_eval_resets_cgc ext force count fuel s f s1 hfail
+  have hreach : Reaches (machine ext force) s sf := (runLoop_reaches ext force count fuel 0 s).1 f sf hrun
+  have hv := vmOkP_reaches force el eg ep (ecl := ecl) ⟨h0, p0⟩ sb sf hreach
+  have pe : PInv (onError sf) := onError_pinv hv.2
+  have p1 : PInv (cgc force (onError sf)) := pinv_gc force (s := onError sf) hv.1.cinv pe
+  have qt : Quiescent (onError sf) := onError_quiescent sf
+  refine ⟨sf, hrun, rfl, ?_⟩
+  intro d s2 t2 hd hs2 ht2
+  exact ⟨prepare_pinv cp p1 q1.2.2.2.1 q1.2.2.2.2 hd hs2, prepare_pinv cp pe qt.2.2.2.1 qt.2.2.2.2 hd ht2⟩
+
+/-- the compiler law is satisfiable (the always-failing compiler of the demo) -/
+example : CompProc (fun _ _ => .err .invalidSyntax) := ⟨fun _ _ _ _ _ _ h => (by cases h)⟩
+
 end ConcreteSim
 
 end Marwood.Proofs.C07
